@@ -8,6 +8,8 @@ import DimodProofs.C02SampleSet
 import DimodProofs.C02Spin
 import DimodProofs.C02Init
 import DimodProofs.C02ViewBridge
+import DimodProofs.C02PyHist
+import DimodProofs.C02PolyH
 import Properties.C04
 
 /-! # C02 — changing between spin and binary representation never changes any energy
@@ -400,5 +402,182 @@ theorem view_write_eq_convert_edit_back (m : Bqm) (i : m.Inv) (tv : VT) :
   · have r := Bqm.view_setQuadratic i tv u v b hne
     exact C02Bridge.write_is_convert_edit_back i r.2.2 (C02Bridge.vSetQuadratic_vt m tv u v b) tv
       (fun q => q.quadOp u v b true) r.1
+
+end C02
+
+/-! ## the dict back-end (`pybqm.py`) on every state an edit history can leave behind
+
+`LBqm` (`DimodModel/Convert.lean`, `DimodModel/PyHist.lean`): `_adj` as an insertion-ordered dict of insertion-ordered
+dicts, every data-level method as coded — including `relabel_variables` (one `(old, new)` step: the linear entry first,
+the interactions re-inserted one by one, `del adj[old]`) and the one-pass loop of `change_vartype`, which reads the
+variable's own entry *wherever it sits* in its neighbourhood dict.  `evalL ½` is the polynomial of the dict of dicts
+(diagonal entries linear, both stored copies of an interaction with weight ½).  The insertion order of the model is
+compared with `_adj` of the real object after every generated history (`lb … order`). -/
+
+namespace C02
+
+open En Generated.Vartype En.LBqm
+
+/-- **`pyBQM.change_vartype` on any well-formed state**, SPIN → BINARY: whatever the order of the keys in `_adj` and in
+    each neighbourhood (`LInv`: keys duplicate-free, each neighbourhood holds its own variable's entry somewhere,
+    neighbours are variables, both copies of an interaction carry the same bias), the converted model at `x` has the
+    value of the original at `s = 2x − 1`.  The multipliers are the generated ones. -/
+theorem pybqm_changeVartype_toBinary_any_state (m : LBqm Rat) (i : LInv m) (hvt : m.vt = .spin) (x : Label → Rat) :
+    evalL (1/2) (m.changeVartypeWith pyToBinary pyToSpin .binary) x = evalL (1/2) m (fun v => 2 * x v + -1) :=
+  changeVartypeWith_evalL pyToBinary pyToSpin m i .binary (by rw [hvt]; decide) 2 (-1)
+    (fun _ => pyToBinary_affine) (fun h => by cases h) x
+
+/-- BINARY → SPIN: the converted model at `s` has the value of the original at `x = (s + 1)/2` -/
+theorem pybqm_changeVartype_toSpin_any_state (m : LBqm Rat) (i : LInv m) (hvt : m.vt = .binary) (s : Label → Rat) :
+    evalL (1/2) (m.changeVartypeWith pyToBinary pyToSpin .spin) s = evalL (1/2) m (fun v => 1/2 * s v + 1/2) :=
+  changeVartypeWith_evalL pyToBinary pyToSpin m i .spin (by rw [hvt]; decide) (1/2) (1/2)
+    (fun h => by cases h) (fun _ => pyToSpin_affine) s
+
+/-- **the representation invariant holds after every history** of data-level calls (`add_linear`, `set_linear`,
+    `add_quadratic`, `remove_interaction`, `remove_variable`, `relabel_variables` one safe step at a time, the offset
+    setter, `change_vartype`; a raising call leaves the model unchanged) from the empty model -/
+theorem pybqm_history_invariant (vt : En.VT) (ops : List (HOp Rat)) : LInv (LBqm.hrun vt ops) :=
+  (GInv.hrun vt ops).toLInv
+
+/-- … and by each further call from any state that satisfies it (so also from a model built by `from_ising` …) -/
+theorem pybqm_step_invariant (m : LBqm Rat) (g : GInv m) (op : HOp Rat) : GInv (m.hstep op) := g.hstep op
+
+/-- **conversion after any history** (the form of the property): for every history and every spin sample `s`, the
+    model converted to BINARY has at `x = (s + 1)/2` the energy the model reached by the history has at `s`; and for a
+    BINARY model the other way round -/
+theorem pybqm_changeVartype_after_history (vt : En.VT) (ops : List (HOp Rat)) :
+    ((LBqm.hrun vt ops).vt = .spin → ∀ s : Label → Rat,
+      evalL (1/2) ((LBqm.hrun vt ops).changeVartypeWith pyToBinary pyToSpin .binary) (fun v => (s v + 1) / 2)
+        = evalL (1/2) (LBqm.hrun vt ops) s) ∧
+    ((LBqm.hrun vt ops).vt = .binary → ∀ x : Label → Rat,
+      evalL (1/2) ((LBqm.hrun vt ops).changeVartypeWith pyToBinary pyToSpin .spin) (fun v => 2 * x v - 1)
+        = evalL (1/2) (LBqm.hrun vt ops) x) := by
+  have i := pybqm_history_invariant vt ops
+  constructor
+  · intro hvt s
+    rw [pybqm_changeVartype_toBinary_any_state _ i hvt]
+    congr 1; funext v; ring
+  · intro hvt x
+    rw [pybqm_changeVartype_toSpin_any_state _ i hvt]
+    congr 1; funext v; ring
+
+/-- **`evalL` is the polynomial of what the dict back-end reports** — offset, `linear[v] = _adj[v][v]`, and every interaction
+    once as `iter_quadratic()` yields it (first endpoint in insertion order) — on every state satisfying the invariant -/
+theorem pybqm_evalL_is_reported (m : LBqm Rat) (i : LInv m) (x : Label → Rat) : evalL (1/2) m x = repEval m x :=
+  evalL_eq_repEval m i x
+
+/-- **conversion after any history, in terms of the reported coefficients**: the energy computed from `offset`, `linear`,
+    `iter_quadratic` of the converted model at the converted sample equals the one computed from those of the model the
+    history reached, at the sample -/
+theorem pybqm_changeVartype_after_history_reported (vt : En.VT) (ops : List (HOp Rat)) :
+    ((LBqm.hrun vt ops).vt = .spin → ∀ s : Label → Rat,
+      repEval ((LBqm.hrun vt ops).changeVartypeWith pyToBinary pyToSpin .binary) (fun v => (s v + 1) / 2)
+        = repEval (LBqm.hrun vt ops) s) ∧
+    ((LBqm.hrun vt ops).vt = .binary → ∀ x : Label → Rat,
+      repEval ((LBqm.hrun vt ops).changeVartypeWith pyToBinary pyToSpin .spin) (fun v => 2 * x v - 1)
+        = repEval (LBqm.hrun vt ops) x) := by
+  have g := GInv.hrun vt ops
+  have h := pybqm_changeVartype_after_history vt ops
+  constructor
+  · intro hvt s
+    rw [← evalL_eq_repEval _ (g.changeVartype pyToBinary pyToSpin .binary).toLInv, ← evalL_eq_repEval _ g.toLInv]
+    exact h.1 hvt s
+  · intro hvt x
+    rw [← evalL_eq_repEval _ (g.changeVartype pyToBinary pyToSpin .spin).toLInv, ← evalL_eq_repEval _ g.toLInv]
+    exact h.2 hvt x
+
+/-- **all interleavings of edits through a model and its views (dict back-end)**: after any history of calls issued through
+    the model or through a `.spin` / `.binary` view object — fresh or held across vartype changes — (`add_linear`, `set_linear`,
+    `add_variable`, `add_quadratic`, `set_quadratic`, `remove_interaction`, `remove_variable`, the offset setter: each the
+    composition of data-level calls `vartypeview.py` makes), `relabel_variables` steps and in-place `change_vartype`, the
+    representation invariant holds, and a conversion preserves the energy computed from the reported coefficients at the
+    converted sample, both directions -/
+theorem pybqm_changeVartype_after_view_history (vt : En.VT) (calls : List (En.VT × VOp Rat)) :
+    LInv (LBqm.vrun vt calls) ∧
+    ((LBqm.vrun vt calls).vt = .spin → ∀ s : Label → Rat,
+      repEval ((LBqm.vrun vt calls).changeVartypeWith pyToBinary pyToSpin .binary) (fun v => (s v + 1) / 2)
+        = repEval (LBqm.vrun vt calls) s) ∧
+    ((LBqm.vrun vt calls).vt = .binary → ∀ x : Label → Rat,
+      repEval ((LBqm.vrun vt calls).changeVartypeWith pyToBinary pyToSpin .spin) (fun v => 2 * x v - 1)
+        = repEval (LBqm.vrun vt calls) x) := by
+  have g := GInv.vrun vt calls
+  refine ⟨g.toLInv, ?_, ?_⟩
+  · intro hvt s
+    rw [← evalL_eq_repEval _ (g.changeVartype pyToBinary pyToSpin .binary).toLInv, ← evalL_eq_repEval _ g.toLInv,
+      pybqm_changeVartype_toBinary_any_state _ g.toLInv hvt]
+    congr 1; funext v; ring
+  · intro hvt x
+    rw [← evalL_eq_repEval _ (g.changeVartype pyToBinary pyToSpin .spin).toLInv, ← evalL_eq_repEval _ g.toLInv,
+      pybqm_changeVartype_toSpin_any_state _ g.toLInv hvt]
+    congr 1; funext v; ring
+
+/-- **there and back on the dict back-end**: on every state satisfying the invariant — in particular after any history of calls
+    through the model and its views — `change_vartype(other)` followed by `change_vartype(original)` gives back the very same
+    model: vartype, offset and every entry of `_adj` in the same insertion order (exact over ℚ; the generated multiplier tables
+    are inverse to each other, `pyTables_inverse`) -/
+theorem pybqm_changeVartype_roundtrip (m : LBqm Rat) (i : LInv m) (other : En.VT) :
+    (m.changeVartypeWith pyToBinary pyToSpin other).changeVartypeWith pyToBinary pyToSpin m.vt = m :=
+  changeVartype_roundtrip_dict m i other
+
+theorem pybqm_changeVartype_roundtrip_after_history (vt : En.VT) (calls : List (En.VT × VOp Rat)) (other : En.VT) :
+    ((LBqm.vrun vt calls).changeVartypeWith pyToBinary pyToSpin other).changeVartypeWith pyToBinary pyToSpin (LBqm.vrun vt calls).vt
+      = LBqm.vrun vt calls :=
+  changeVartype_roundtrip_dict _ (GInv.vrun vt calls).toLInv other
+
+/-- non-vacuity, the state seeded change C02-5 needs: `a` with an interaction is relabelled to `c`; the linear entry of `c`
+    is first in its neighbourhood as coded (the theorem above does not depend on that) -/
+example : (LBqm.hrun .spin [.addLinear (.int 0) 1, .addQuadratic (.int 0) (.int 1) 2, .relabel (.int 0) (.int 2)]).rawOrder
+    = [(.int 1, [.int 1, .int 2]), (.int 2, [.int 2, .int 1])] := by decide +kernel
+
+end C02
+
+/-! ## `BinaryPolynomial.to_hubo / to_hising / from_hubo` (`DimodModel/PolyH.lean`) -/
+
+namespace C02
+
+open En
+
+/-- **`to_hubo()`**, BINARY polynomial: `Σ H[t]·Πx + offset` is the polynomial at `x`; SPIN polynomial (converted by
+    `to_binary()` first): it is the polynomial at `s = 2x − 1` -/
+theorem poly_to_hubo_energy {R : Type} [CommRing R] (p : Poly R) (x : Nat → R) :
+    polySpec x (polyToHuboOf false p).1 + (polyToHuboOf false p).2 = polySpec x p ∧
+    polySpec x (polyToHuboOf true p).1 + (polyToHuboOf true p).2 = polySpec (fun v => two * x v - 1) p := by
+  unfold polyToHuboOf
+  refine ⟨polyToHubo_energy x p, ?_⟩
+  simp only [if_true]
+  rw [polyToHubo_energy, polyToBinary_energy]
+
+/-- **`to_hising()`**, SPIN polynomial: `Σ h·s + Σ J[t]·Πs + offset` is the polynomial at `s`; BINARY polynomial (converted by
+    `to_spin()` first): it is the polynomial at `x = (s + 1)/2` -/
+theorem poly_to_hising_energy {R : Type} [Field R] (p : Poly R) (h2 : (two : R) ≠ 0) (s : Nat → R) :
+    hSum s (polyToHisingOf false p).1 + polySpec s (polyToHisingOf false p).2.1 + (polyToHisingOf false p).2.2 = polySpec s p ∧
+    hSum s (polyToHisingOf true p).1 + polySpec s (polyToHisingOf true p).2.1 + (polyToHisingOf true p).2.2
+      = polySpec (fun v => (s v + 1) / two) p := by
+  unfold polyToHisingOf
+  refine ⟨polyToHising_energy s p, ?_⟩
+  simp only [if_true]
+  rw [polyToHising_energy, polyToSpin_energy p h2]
+
+/-- **`from_hubo(H, offset)`** adds the offset to the constant term: the polynomial is `Σ H + offset` -/
+theorem poly_from_hubo_energy {R : Type} [CommRing R] (H : Poly R) (o : R) (x : Nat → R) :
+    polySpec x (polyFromHubo H (some o)) = polySpec x H + o ∧ polyFromHubo H none = H := by
+  refine ⟨?_, rfl⟩
+  unfold polyFromHubo
+  simp only []
+  rw [polySpec_set]
+  simp [termProd]
+
+/-- `from_hising(h, J, offset)` as coded *assigns* the offset to the constant term: a `()` entry of `J` is overwritten, not
+    added to (unlike `from_hubo`).  For `J` without a `()` entry and terms distinct from the `(v,)` of `h` the polynomial is
+    `Σ h + Σ J + offset` — only the offset step is stated here, hence `_partial`. -/
+theorem poly_from_hising_offset_partial {R : Type} [CommRing R] (h : ODict Nat R) (J : Poly R) (o : R) (x : Nat → R) :
+    polySpec x (polyFromHising h J (some o))
+      = polySpec x (polyFromHising h J none) + (o - (ODict.get? (polyFromHising h J none) []).getD 0) := by
+  unfold polyFromHising
+  simp only []
+  rw [polySpec_set]
+  simp [termProd]
+
+example : polyToHuboOf true [([0, 1], (1 : Rat))] = ([([1], -2), ([0], -2), ([0, 1], 4)], 1) := by decide +kernel
 
 end C02
